@@ -103,6 +103,12 @@ pub fn sjis_string(max: usize) -> BoxedStrategy<String> {
     proptest::collection::vec(sjis_char(), 0..=max).prop_map(|v| v.into_iter().collect()).boxed()
 }
 
+/// very long strings: 100..=300 mixed single-/double-byte characters repeated 1..=60 times (about 150 bytes to 36 KiB; past any
+/// fixed-size scratch buffer, with double-byte characters straddling every chunk boundary one might choose)
+pub fn long_sjis_string() -> BoxedStrategy<String> {
+    (proptest::collection::vec(prop_oneof![2 => sjis_char(), 1 => proptest::sample::select(sjis_domain().double.clone())], 100..=300), 1usize..=60).prop_map(|(v, k)| v.into_iter().collect::<String>().repeat(k)).boxed()
+}
+
 /// strings for archives: a small fixed pool (so that repeats and label/string collisions happen)
 /// mixed with fresh random strings
 pub fn archive_string() -> BoxedStrategy<String> {
@@ -112,11 +118,12 @@ pub fn archive_string() -> BoxedStrategy<String> {
         .filter(|s| is_sjis_lossless(s))
         .collect();
     prop_oneof![
-        20 => proptest::sample::select(pool),
-        12 => sjis_string(6),
-        4 => sjis_string(24),
+        160 => proptest::sample::select(pool),
+        96 => sjis_string(6),
+        32 => sjis_string(24),
         // long strings (60..=140 characters, single- and double-byte mixed: every alignment of a double-byte character occurs)
-        1 => proptest::collection::vec(prop_oneof![2 => sjis_char(), 1 => proptest::sample::select(sjis_domain().double.clone())], 60..=140).prop_map(|v| v.into_iter().collect::<String>()),
+        8 => proptest::collection::vec(prop_oneof![2 => sjis_char(), 1 => proptest::sample::select(sjis_domain().double.clone())], 60..=140).prop_map(|v| v.into_iter().collect::<String>()),
+        1 => long_sjis_string(),
     ]
     .boxed()
 }
